@@ -16,6 +16,14 @@
 (*                               (legacy sessions + *ChangeSubscriptions)     *)
 (*   ResourceUpdated (1125-1151) Updated(u)                                   *)
 (*   subscribe/unsubscribe/subscriptionsListen (1153-1263), disconnect (1342) *)
+(*   subscriptionsListen over SEVERAL URIs (1245-1263): Listen(s, q, rej) is  *)
+(*       ONE request naming the URIs q in this order; the SubscribeHandler    *)
+(*       (user code) accepts or rejects each URI (rej: the environment's      *)
+(*       choice).  ListenStep(s) is one turn of the loop: an accepted URI is  *)
+(*       entered into resourceSubscriptions at once, the first rejected one   *)
+(*       fails the whole request and the deferred Server.unsubscribe of every *)
+(*       URI entered so far runs; only when all were accepted is the request  *)
+(*       acknowledged and the session subscribed.                             *)
 (* The pending state of notification n is  <<ref[n], cbs[n]>>:                *)
 (*   none = <<"nil",0>>, armed = <<"armed",_>>, firedPending = cbs[n] > 0.    *)
 (* A Reset that lands in the firedPending window re-arms a timer whose        *)
@@ -61,6 +69,10 @@ CONSTANTS
   NPages,       \* pages of a feature list (a list call walks them; the cache is keyed by cursor, i.e. by page)
   ModernUnsub,  \* environment: modern sessions may unsubscribe a URI
   ForeignUnsub, \* environment: legacy sessions may unsubscribe a URI they are not subscribed to
+  Listeners,    \* environment: modern sessions that may send ONE subscriptions/listen request naming several URIs
+  MaxListens,   \* ... at most this many such requests in a behaviour
+  FailUndo,     \* TRUE = a listen request that fails at its k-th URI unsubscribes the k-1 URIs it had entered (the code);
+                \* FALSE = it leaves them in resourceSubscriptions (defect class, used by the sensitivity witness only)
   Stepwise,          \* environment acts only at SDK quiescence (scenario discipline)
   Gates,        \* environment may hold client-side gates ...
   GateNames,    \* ... these: subset of {"inv", "usr", "put", "unsub"}
@@ -78,6 +90,9 @@ VARIABLES
   rsub,     \* uri -> sessions in the server's resourceSubscriptions[uri]
   usub,     \* session -> URIs it is subscribed to, as the client sees it (the truth for entitlement)
   pun,      \* <<session, uri>>: listen streams the client has cancelled whose server-side clean-up has not run yet
+            \* (and URIs entered by a listen request that failed afterwards, until its deferred clean-up has run)
+  lst,      \* session -> its subscriptions/listen request over several URIs: [st, uris, rej, n]
+            \*   st "idle" none; "run" the server is in the loop, uris[1..n] are entered; "open" acknowledged, stream parked
   chan,     \* session -> FIFO of messages server -> client
   nq,       \* session -> notifications read, waiting for the in-order dispatcher
   hnd,      \* session -> notification being handled: [stage, msg]
@@ -93,7 +108,7 @@ VARIABLES
   bad       \* ghost: names of the immediate clauses that a send violated
 
 vars == <<now, ver, ref, refDue, orph, cbs, sess, lsub, rsub, usub, pun, chan, nq, hnd, cache, cgen, call, handled,
-          gates, race, budget, ent, got, bad>>
+          gates, race, budget, ent, got, bad, lst>>
 
 Modern == Sessions \ Legacy
 Notifs == {NotifOf[k] : k \in Kinds}
@@ -111,6 +126,12 @@ PagesOf(i) == IF i \in Uris THEN {1} ELSE Pages
 NoVal == [p \in Pages |-> -1]
 Idle == [st |-> "idle", item |-> "", page |-> 0, gen |-> 0, val |-> NoVal, hs |-> -1, hit |-> FALSE]
 OnSessions == {s \in Sessions : sess[s] = "on"}
+Range(q) == {q[i] : i \in DOMAIN q}
+NoListen == [st |-> "idle", uris |-> <<>>, rej |-> {}, n |-> 0]
+\* the URI lists a listen request may carry: every non-empty sequence of distinct URIs
+UriSeqs == {q \in UNION {[1..n -> Uris] : n \in 1..Cardinality(Uris)} : \A i, j \in DOMAIN q : i # j => q[i] # q[j]}
+\* the server is still working on a listen request of s that names u (neither acknowledged nor failed yet)
+Pending(s, u) == lst[s].st = "run" /\ u \in Range(lst[s].uris)
 
 \* entitlement as the protocol defines it (what the client asked for and was granted), not what the
 \* server's maps happen to contain
@@ -138,7 +159,8 @@ Init ==
   /\ handled = [s \in Sessions |-> [i \in Items |-> -1]]
   /\ gates = {}
   /\ race = ""
-  /\ budget = [chg |-> 0, upd |-> 0]
+  /\ budget = [chg |-> 0, upd |-> 0, lst |-> 0]
+  /\ lst = [s \in Sessions |-> NoListen]
   /\ ent = [s \in Sessions |-> [n \in Notifs |-> FALSE]]
   /\ got = [s \in Sessions |-> [n \in Notifs |-> FALSE]]
   /\ bad = {}
@@ -153,6 +175,7 @@ Held(g, s) == <<g, s>> \in gates
 SdkEnabled ==
   \/ \E n \in Notifs : TimerDue(n) \/ cbs[n] > 0
   \/ \E x \in pun : ~Held("unsub", x[1])
+  \/ \E s \in Sessions : lst[s].st = "run"
   \/ \E s \in Sessions :
         \/ chan[s] # <<>>
         \/ (nq[s] # <<>> /\ hnd[s].stage = "none" /\ ~Held("inv", s))
@@ -162,7 +185,7 @@ SdkEnabled ==
 ClientBusy == \E s \in Sessions : chan[s] # <<>> \/ nq[s] # <<>> \/ hnd[s].stage # "none"
 SrvOK == ~ClientFirst \/ ~ClientBusy
 EnvOK == race = "" /\ (~Stepwise \/ ~SdkEnabled) /\ SrvOK
-InFlight(s) == chan[s] # <<>> \/ nq[s] # <<>> \/ hnd[s].stage # "none"
+InFlight(s) == chan[s] # <<>> \/ nq[s] # <<>> \/ hnd[s].stage # "none" \/ lst[s].st = "run"
                \/ \E c \in Slots : call[s][c].st \in {"req", "sent", "arrived"}
 
 \* ---------------------------------------------------------------------------
@@ -185,21 +208,21 @@ DoChange(k) ==
 Change(k) ==
   /\ EnvOK /\ budget.chg < MaxChanges
   /\ DoChange(k)
-  /\ UNCHANGED <<now, orph, cbs, sess, lsub, rsub, usub, pun, chan, nq, hnd, cache, cgen, call, handled, gates, race, bad>>
+  /\ UNCHANGED <<now, orph, cbs, sess, lsub, rsub, usub, pun, chan, nq, hnd, cache, cgen, call, handled, gates, race, bad, lst>>
 
 \* the change made at an instant at which a timer is due: it interleaves with TimerFire / CallbackRun
 RaceChange ==
   /\ race # "" /\ SrvOK
   /\ DoChange(race)
   /\ race' = ""
-  /\ UNCHANGED <<now, orph, cbs, sess, lsub, rsub, usub, pun, chan, nq, hnd, cache, cgen, call, handled, gates, bad>>
+  /\ UNCHANGED <<now, orph, cbs, sess, lsub, rsub, usub, pun, chan, nq, hnd, cache, cgen, call, handled, gates, bad, lst>>
 
 TimerFire(n) ==
   /\ SrvOK /\ ref[n] = "armed" /\ refDue[n] <= now
   /\ ref' = [ref EXCEPT ![n] = "idle"]
   /\ refDue' = [refDue EXCEPT ![n] = 0]
   /\ cbs' = [cbs EXCEPT ![n] = @ + 1]
-  /\ UNCHANGED <<now, ver, orph, sess, lsub, rsub, usub, pun, chan, nq, hnd, cache, cgen, call, handled, gates, race, budget, ent, got, bad>>
+  /\ UNCHANGED <<now, ver, orph, sess, lsub, rsub, usub, pun, chan, nq, hnd, cache, cgen, call, handled, gates, race, budget, ent, got, bad, lst>>
 
 OrphFire(n) ==
   /\ SrvOK
@@ -207,7 +230,7 @@ OrphFire(n) ==
         /\ orph[n][d] > 0 /\ d <= now
         /\ orph' = [orph EXCEPT ![n][d] = @ - 1]
   /\ cbs' = [cbs EXCEPT ![n] = @ + 1]
-  /\ UNCHANGED <<now, ver, ref, refDue, sess, lsub, rsub, usub, pun, chan, nq, hnd, cache, cgen, call, handled, gates, race, budget, ent, got, bad>>
+  /\ UNCHANGED <<now, ver, ref, refDue, sess, lsub, rsub, usub, pun, chan, nq, hnd, cache, cgen, call, handled, gates, race, budget, ent, got, bad, lst>>
 
 NMsg(t) == [t |-> "n", topic |-> t, snap |-> ver, slot |-> 0, val |-> 0]
 
@@ -221,7 +244,7 @@ CallbackRun(n) ==
   /\ chan' = [s \in Sessions |-> IF s \in R THEN Append(chan[s], NMsg(n)) ELSE chan[s]]
   /\ bad' = bad \cup (IF \E s \in R : ~EntLC(s, n) THEN {"OnlyEntitled"} ELSE {})
                 \cup (IF ~CapOn(n) /\ R # {} THEN {"NoneWhenDisabled"} ELSE {})
-  /\ UNCHANGED <<now, ver, sess, lsub, rsub, usub, pun, nq, hnd, cache, cgen, call, handled, gates, race, budget, ent, got>>
+  /\ UNCHANGED <<now, ver, sess, lsub, rsub, usub, pun, nq, hnd, cache, cgen, call, handled, gates, race, budget, ent, got, lst>>
 
 \* server: ResourceUpdated(u) — the content changed and the server author says so
 Updated(u) ==
@@ -231,10 +254,12 @@ Updated(u) ==
   /\ ver' = [ver EXCEPT ![u] = @ + 1]
   /\ budget' = [budget EXCEPT !.upd = @ + 1]
   /\ chan' = [s \in Sessions |-> IF s \in R THEN Append(chan[s], m) ELSE chan[s]]
-  \* exactly the subscribed sessions; a session whose unsubscribe the server is still processing may get it
-  /\ bad' = bad \cup (IF {s \in Sessions : EntUp(s, u)} \subseteq R /\ R \subseteq {s \in Sessions : EntUp(s, u) \/ <<s, u>> \in pun}
+  \* exactly the subscribed sessions; a session whose unsubscribe the server is still processing may get it, and so
+  \* may one whose listen request naming u the server has neither acknowledged nor failed yet
+  /\ bad' = bad \cup (IF {s \in Sessions : EntUp(s, u)} \subseteq R
+                           /\ R \subseteq {s \in Sessions : EntUp(s, u) \/ <<s, u>> \in pun \/ Pending(s, u)}
                         THEN {} ELSE {"UpdatedExactlySubscribers"})
-  /\ UNCHANGED <<now, ref, refDue, orph, cbs, sess, lsub, rsub, usub, pun, nq, hnd, cache, cgen, call, handled, gates, race, ent, got>>
+  /\ UNCHANGED <<now, ref, refDue, orph, cbs, sess, lsub, rsub, usub, pun, nq, hnd, cache, cgen, call, handled, gates, race, ent, got, lst>>
 
 \* ---------------------------------------------------------------------------
 \* sessions
@@ -246,13 +271,14 @@ Connect(s) ==
   /\ sess' = [sess EXCEPT ![s] = "on"]
   /\ lsub' = IF s \in Modern THEN [n \in Notifs |-> IF n \in Want[s] /\ CapOn(n) THEN lsub[n] \cup {s} ELSE lsub[n]]
              ELSE lsub
-  /\ UNCHANGED <<now, ver, ref, refDue, orph, cbs, rsub, usub, pun, chan, nq, hnd, cache, cgen, call, handled, gates, race, budget, ent, got, bad>>
+  /\ UNCHANGED <<now, ver, ref, refDue, orph, cbs, rsub, usub, pun, chan, nq, hnd, cache, cgen, call, handled, gates, race, budget, ent, got, bad, lst>>
 
 \* ClientSession.Close, the server notices and runs disconnect (and the listen handlers' clean-up)
 Close(s) ==
   /\ EnvOK /\ sess[s] = "on"
   /\ Stepwise => ({g \in gates : g[2] = s} = {} /\ ~InFlight(s))
   /\ sess' = [sess EXCEPT ![s] = "closed"]
+  /\ lst' = [lst EXCEPT ![s] = NoListen]
   /\ lsub' = [n \in Notifs |-> lsub[n] \ {s}]
   /\ rsub' = [u \in Uris |-> rsub[u] \ {s}]
   /\ usub' = [usub EXCEPT ![s] = {}]
@@ -268,11 +294,11 @@ Close(s) ==
 
 \* resources/subscribe (legacy) or a subscriptions/listen stream for the URI (modern)
 Subscribe(s, u) ==
-  /\ EnvOK /\ sess[s] = "on" /\ u \notin usub[s]
+  /\ EnvOK /\ sess[s] = "on" /\ u \notin usub[s] /\ ~Pending(s, u)
   /\ ResubRace \/ <<s, u>> \notin pun
   /\ usub' = [usub EXCEPT ![s] = @ \cup {u}]
   /\ rsub' = [rsub EXCEPT ![u] = @ \cup {s}]
-  /\ UNCHANGED <<now, ver, ref, refDue, orph, cbs, sess, lsub, pun, chan, nq, hnd, cache, cgen, call, handled, gates, race, budget, ent, got, bad>>
+  /\ UNCHANGED <<now, ver, ref, refDue, orph, cbs, sess, lsub, pun, chan, nq, hnd, cache, cgen, call, handled, gates, race, budget, ent, got, bad, lst>>
 
 \* resources/unsubscribe (legacy): the server's handler removes the entry.
 \* Cancellation of the URI's listen stream (modern): ClientSession.Unsubscribe returns at once; the server
@@ -283,11 +309,13 @@ Unsubscribe(s, u) ==
   \* ClientSession.Unsubscribe of a 2026-07-28 session does nothing then
   /\ EnvOK /\ sess[s] = "on" /\ (u \in usub[s] \/ (s \in Legacy /\ ForeignUnsub))
   /\ s \in Modern => ModernUnsub
+  \* the URIs of a several-URI listen stream can only be given up together (Unlisten)
+  /\ u \notin Range(lst[s].uris)
   /\ usub' = [usub EXCEPT ![s] = @ \ {u}]
   /\ IF s \in Modern
        THEN pun' = pun \cup {<<s, u>>} /\ UNCHANGED rsub
        ELSE rsub' = [rsub EXCEPT ![u] = @ \ {s}] /\ UNCHANGED pun
-  /\ UNCHANGED <<now, ver, ref, refDue, orph, cbs, sess, lsub, chan, nq, hnd, cache, cgen, call, handled, gates, race, budget, ent, got, bad>>
+  /\ UNCHANGED <<now, ver, ref, refDue, orph, cbs, sess, lsub, chan, nq, hnd, cache, cgen, call, handled, gates, race, budget, ent, got, bad, lst>>
 
 \* the cancelled listen handler returns: its deferred clean-up deletes resourceSubscriptions[u][s] — whichever
 \* listen stream owns that entry by now.  The list-changed entries of the session belong to its Connect-time
@@ -298,7 +326,47 @@ FinishUnsub(s, u) ==
   /\ pun' = pun \ {<<s, u>>}
   /\ rsub' = [rsub EXCEPT ![u] = @ \ {s}]
   /\ lsub' = IF ListenOwns THEN lsub ELSE [n \in Notifs |-> lsub[n] \ {s}]
-  /\ UNCHANGED <<now, ver, ref, refDue, orph, cbs, sess, usub, chan, nq, hnd, cache, cgen, call, handled, gates, race, budget, ent, got, bad>>
+  /\ UNCHANGED <<now, ver, ref, refDue, orph, cbs, sess, usub, chan, nq, hnd, cache, cgen, call, handled, gates, race, budget, ent, got, bad, lst>>
+
+\* ONE subscriptions/listen request of a modern session naming the URIs q, in this order (ClientSession.Subscribe only
+\* ever sends single-URI requests; the protocol allows any number).  The server's SubscribeHandler is user code: which of
+\* the URIs it rejects is the environment's choice.
+Listen(s, q, rej) ==
+  /\ EnvOK /\ sess[s] = "on" /\ s \in Listeners /\ lst[s].st = "idle" /\ budget.lst < MaxListens
+  /\ rej \subseteq Range(q) /\ Range(q) \cap usub[s] = {}
+  /\ ResubRace \/ \A u \in Range(q) : <<s, u>> \notin pun
+  /\ lst' = [lst EXCEPT ![s] = [st |-> "run", uris |-> q, rej |-> rej, n |-> 0]]
+  /\ budget' = [budget EXCEPT !.lst = @ + 1]
+  /\ UNCHANGED <<now, ver, ref, refDue, orph, cbs, sess, lsub, rsub, usub, pun, chan, nq, hnd, cache, cgen, call, handled, gates, race, ent, got, bad>>
+
+\* one turn of the loop in Server.subscriptionsListen (1245-1263)
+ListenStep(s) ==
+  LET L == lst[s] IN
+  /\ SrvOK /\ L.st = "run"
+  /\ IF L.n = Len(L.uris)
+       \* every URI was accepted: subscriptions/acknowledged is sent, the handler parks until the stream is cancelled
+       THEN /\ lst' = [lst EXCEPT ![s].st = "open"]
+            /\ usub' = [usub EXCEPT ![s] = @ \cup Range(L.uris)]
+            /\ UNCHANGED <<rsub, pun>>
+       ELSE LET u == L.uris[L.n + 1] IN
+            IF u \in L.rej
+              \* the SubscribeHandler rejects u: the request fails as a whole, nothing is acknowledged, and the deferred
+              \* Server.unsubscribe of every URI entered so far runs (FinishUnsub)
+              THEN /\ lst' = [lst EXCEPT ![s] = NoListen]
+                   /\ pun' = IF FailUndo THEN pun \cup {<<s, L.uris[i]>> : i \in 1..L.n} ELSE pun
+                   /\ UNCHANGED <<rsub, usub>>
+              ELSE /\ lst' = [lst EXCEPT ![s].n = @ + 1]
+                   /\ rsub' = [rsub EXCEPT ![u] = @ \cup {s}]
+                   /\ UNCHANGED <<usub, pun>>
+  /\ UNCHANGED <<now, ver, ref, refDue, orph, cbs, sess, lsub, chan, nq, hnd, cache, cgen, call, handled, gates, race, budget, ent, got, bad>>
+
+\* the client cancels the several-URI stream: every URI of it is given up; the server's deferred clean-up runs per URI
+Unlisten(s) ==
+  /\ EnvOK /\ sess[s] = "on" /\ lst[s].st = "open"
+  /\ usub' = [usub EXCEPT ![s] = @ \ Range(lst[s].uris)]
+  /\ pun' = pun \cup {<<s, u>> : u \in Range(lst[s].uris)}
+  /\ lst' = [lst EXCEPT ![s] = NoListen]
+  /\ UNCHANGED <<now, ver, ref, refDue, orph, cbs, sess, lsub, rsub, chan, nq, hnd, cache, cgen, call, handled, gates, race, budget, ent, got, bad>>
 
 \* ---------------------------------------------------------------------------
 \* client: list / read calls and the result cache
@@ -320,13 +388,13 @@ ListStart(s, c, i) ==
   /\ LET w == Walk(s, i, 1, NoVal) IN
        call' = [call EXCEPT ![s][c] = [st |-> w.st, item |-> i, page |-> w.page, gen |-> w.gen, val |-> w.val, hs |-> handled[s][i],
                                        hit |-> (w.st = "done")]]
-  /\ UNCHANGED <<now, ver, ref, refDue, orph, cbs, sess, lsub, rsub, usub, pun, chan, nq, hnd, cache, cgen, handled, gates, race, budget, ent, got, bad>>
+  /\ UNCHANGED <<now, ver, ref, refDue, orph, cbs, sess, lsub, rsub, usub, pun, chan, nq, hnd, cache, cgen, handled, gates, race, budget, ent, got, bad, lst>>
 
 ServeList(s, c) ==
   /\ call[s][c].st = "req"
   /\ call' = [call EXCEPT ![s][c].st = "sent"]
   /\ chan' = [chan EXCEPT ![s] = Append(@, [t |-> "r", topic |-> "", snap |-> ver, slot |-> c, val |-> ver[call[s][c].item]])]
-  /\ UNCHANGED <<now, ver, ref, refDue, orph, cbs, sess, lsub, rsub, usub, pun, nq, hnd, cache, cgen, handled, gates, race, budget, ent, got, bad>>
+  /\ UNCHANGED <<now, ver, ref, refDue, orph, cbs, sess, lsub, rsub, usub, pun, nq, hnd, cache, cgen, handled, gates, race, budget, ent, got, bad, lst>>
 
 \* the client's reader takes the next message off the wire: a notification is queued for the in-order
 \* dispatcher, a response is handed to its caller (ResponseArrives)
@@ -339,7 +407,7 @@ Read(s) ==
                  /\ UNCHANGED call
             ELSE /\ call' = [call EXCEPT ![s][m.slot] = [@ EXCEPT !.st = "arrived", !.val[@.page] = m.val]]
                  /\ UNCHANGED nq
-  /\ UNCHANGED <<now, ver, ref, refDue, orph, cbs, sess, lsub, rsub, usub, pun, hnd, cache, cgen, handled, gates, race, budget, ent, got, bad>>
+  /\ UNCHANGED <<now, ver, ref, refDue, orph, cbs, sess, lsub, rsub, usub, pun, hnd, cache, cgen, handled, gates, race, budget, ent, got, bad, lst>>
 
 \* the page is put into the cache under its cursor after the call returned from the middleware chain; the walk
 \* then goes on with the next page (pages other than this one are as they were)
@@ -352,7 +420,7 @@ CachePut(s, c) ==
   /\ cache' = IF s \in Modern /\ (~GenCheck \/ cgen[s][k.item] = k.gen)
                THEN [cache EXCEPT ![s][k.item][k.page] = k.val[k.page]] ELSE cache
   /\ UNCHANGED cgen
-  /\ UNCHANGED <<now, ver, ref, refDue, orph, cbs, sess, lsub, rsub, usub, pun, chan, nq, hnd, handled, gates, race, budget, ent, got, bad>>
+  /\ UNCHANGED <<now, ver, ref, refDue, orph, cbs, sess, lsub, rsub, usub, pun, chan, nq, hnd, handled, gates, race, budget, ent, got, bad, lst>>
 
 \* the in-order dispatcher takes the next notification and runs the SDK's handler: first the cache
 \* entries the notification is about are dropped ...
@@ -363,7 +431,7 @@ Invalidate(s) ==
   /\ cache' = [cache EXCEPT ![s] = [i \in Items |-> IF i \in ItemsOf(Head(nq[s]).topic) THEN NoVal ELSE @[i]]]
   \* invalidate / invalidateKey bump the generation of the method cache (resources/read: one cache for all URIs)
   /\ cgen' = [cgen EXCEPT ![s] = [i \in Items |-> IF \E j \in ItemsOf(Head(nq[s]).topic) : SameCache(i, j) THEN @[i] + 1 ELSE @[i]]]
-  /\ UNCHANGED <<now, ver, ref, refDue, orph, cbs, sess, lsub, rsub, usub, pun, chan, call, handled, gates, race, budget, ent, got, bad>>
+  /\ UNCHANGED <<now, ver, ref, refDue, orph, cbs, sess, lsub, rsub, usub, pun, chan, call, handled, gates, race, budget, ent, got, bad, lst>>
 
 \* ... then the user's handler runs
 UserHandler(s) ==
@@ -374,7 +442,7 @@ UserHandler(s) ==
   /\ handled' = [handled EXCEPT ![s] = [i \in Items |-> IF i \in ItemsOf(t) THEN Max(@[i], m.snap[i]) ELSE @[i]]]
   /\ got' = IF t \in Notifs /\ \A k \in KindsOf(t) : m.snap[k] = ver[k]
               THEN [got EXCEPT ![s][t] = TRUE] ELSE got
-  /\ UNCHANGED <<now, ver, ref, refDue, orph, cbs, sess, lsub, rsub, usub, pun, chan, nq, cache, cgen, call, gates, race, budget, ent, bad>>
+  /\ UNCHANGED <<now, ver, ref, refDue, orph, cbs, sess, lsub, rsub, usub, pun, chan, nq, cache, cgen, call, gates, race, budget, ent, bad, lst>>
 
 \* ---------------------------------------------------------------------------
 \* environment: time and gates
@@ -383,7 +451,7 @@ Tick ==
   /\ EnvOK /\ now < MaxTime
   /\ \E n \in Notifs : TimerArmed(n)
   /\ now' = now + 1
-  /\ UNCHANGED <<ver, ref, refDue, orph, cbs, sess, lsub, rsub, usub, pun, chan, nq, hnd, cache, cgen, call, handled, gates, race, budget, ent, got, bad>>
+  /\ UNCHANGED <<ver, ref, refDue, orph, cbs, sess, lsub, rsub, usub, pun, chan, nq, hnd, cache, cgen, call, handled, gates, race, budget, ent, got, bad, lst>>
 
 \* advance to an instant at which a timer is due and change a feature at that very instant
 TickRace(k) ==
@@ -391,23 +459,24 @@ TickRace(k) ==
   /\ \E n \in Notifs : (ref[n] = "armed" /\ refDue[n] = now + 1) \/ orph[n][now + 1] > 0
   /\ now' = now + 1
   /\ race' = k
-  /\ UNCHANGED <<ver, ref, refDue, orph, cbs, sess, lsub, rsub, usub, pun, chan, nq, hnd, cache, cgen, call, handled, gates, budget, ent, got, bad>>
+  /\ UNCHANGED <<ver, ref, refDue, orph, cbs, sess, lsub, rsub, usub, pun, chan, nq, hnd, cache, cgen, call, handled, gates, budget, ent, got, bad, lst>>
 
 Hold(g, s) ==
   /\ Gates /\ EnvOK /\ sess[s] = "on" /\ <<g, s>> \notin gates
   /\ g = "unsub" => s \in Modern
   /\ gates' = gates \cup {<<g, s>>}
-  /\ UNCHANGED <<now, ver, ref, refDue, orph, cbs, sess, lsub, rsub, usub, pun, chan, nq, hnd, cache, cgen, call, handled, race, budget, ent, got, bad>>
+  /\ UNCHANGED <<now, ver, ref, refDue, orph, cbs, sess, lsub, rsub, usub, pun, chan, nq, hnd, cache, cgen, call, handled, race, budget, ent, got, bad, lst>>
 
 Release(g, s) ==
   /\ EnvOK /\ <<g, s>> \in gates
   /\ gates' = gates \ {<<g, s>>}
-  /\ UNCHANGED <<now, ver, ref, refDue, orph, cbs, sess, lsub, rsub, usub, pun, chan, nq, hnd, cache, cgen, call, handled, race, budget, ent, got, bad>>
+  /\ UNCHANGED <<now, ver, ref, refDue, orph, cbs, sess, lsub, rsub, usub, pun, chan, nq, hnd, cache, cgen, call, handled, race, budget, ent, got, bad, lst>>
 
 SdkNext ==
   \/ \E n \in Notifs : TimerFire(n) \/ OrphFire(n) \/ CallbackRun(n)
   \/ RaceChange
   \/ \E s \in Sessions, u \in Uris : FinishUnsub(s, u)
+  \/ \E s \in Sessions : ListenStep(s)
   \/ \E s \in Sessions : Read(s) \/ Invalidate(s) \/ UserHandler(s)
   \/ \E s \in Sessions, c \in Slots : ServeList(s, c) \/ CachePut(s, c)
 
@@ -416,6 +485,8 @@ EnvNext ==
   \/ \E u \in Uris : Updated(u)
   \/ \E s \in Sessions : Connect(s) \/ Close(s)
   \/ \E s \in Sessions, u \in Uris : Subscribe(s, u) \/ Unsubscribe(s, u)
+  \/ \E s \in Listeners, q \in UriSeqs, rej \in SUBSET Uris : Listen(s, q, rej)
+  \/ \E s \in Listeners : Unlisten(s)
   \/ \E s \in Sessions, c \in Slots, i \in Items : ListStart(s, c, i)
   \/ Tick
   \/ \E g \in GateNames, s \in Sessions : Hold(g, s) \/ Release(g, s)
@@ -428,6 +499,7 @@ Spec == Init /\ [][Next]_vars
 
 Quiescent ==
   /\ race = "" /\ gates = {} /\ pun = {}
+  /\ \A s \in Sessions : lst[s].st # "run"
   /\ \A n \in Notifs : ~TimerArmed(n) /\ cbs[n] = 0
   /\ \A s \in Sessions : ~InFlight(s)
 
@@ -437,6 +509,9 @@ NeverLost == Quiescent => \A s \in Sessions, n \in Notifs : (CapOn(n) /\ ent[s][
 OnlyEntitled == "OnlyEntitled" \notin bad
 NoneWhenDisabled == "NoneWhenDisabled" \notin bad
 UpdatedExactlySubscribers == "UpdatedExactlySubscribers" \notin bad
+\* ... which needs: the server remembers a session for a URI only while the session is subscribed to it or the server is
+\* still working on a request of it about that URI - in particular nothing of a listen request that failed stays behind
+SubsOnlyCurrent == \A s \in Sessions, u \in Uris : s \in rsub[u] => (EntUp(s, u) \/ <<s, u>> \in pun \/ Pending(s, u))
 \* a list or read issued after the user handler saw a notification reflects state at least that new
 Fresh == \A s \in Sessions, c \in Slots : call[s][c].st = "done" =>
             \A p \in PagesOf(call[s][c].item) : call[s][c].val[p] >= call[s][c].hs
@@ -448,7 +523,9 @@ TypeOK ==
   /\ \A n \in Notifs : ref[n] \in {"nil", "armed", "idle"} /\ cbs[n] \in 0..(MaxChanges + 1)
   /\ \A s \in Sessions : sess[s] \in {"new", "on", "closed"} /\ Len(chan[s]) <= MaxChanges + MaxUpdates + MaxCalls + 2
   /\ \A n \in Notifs : lsub[n] \subseteq Modern
-  /\ budget.chg \in 0..MaxChanges /\ budget.upd \in 0..MaxUpdates
+  /\ budget.chg \in 0..MaxChanges /\ budget.upd \in 0..MaxUpdates /\ budget.lst \in 0..MaxListens
+  /\ \A s \in Sessions : lst[s].st \in {"idle", "run", "open"} /\ lst[s].n \in 0..Len(lst[s].uris)
+  /\ \A s \in Sessions \ Listeners : lst[s] = NoListen
 
 \* the server never keeps a non-session in its maps
 MapsOnlySessions == \A s \in Sessions : sess[s] # "on" =>
